@@ -191,7 +191,7 @@ def probe_hint(label, h, confs, part):
                     except BaseException as e:
                         report(name, 'door', e)
         for w in rec:
-            if w.category is UserWarning and cname.endswith('-warns') and 'violates type hint' in str(w.message):
+            if w.category is UserWarning and (cname.endswith('-warns') or cname == 'warn') and 'violates type hint' in str(w.message):
                 continue            # the violation itself, emitted as the configured warning category
             if not issubclass(w.category, BeartypeWarning) and not issubclass(w.category, (DeprecationWarning, SyntaxWarning)):
                 viol.append((f'warning:{w.category.__name__}:{_family(label)}', f'hint {label}: warning {w.category.__name__}: {str(w.message)[:120]}', {'hint': label}))
